@@ -65,6 +65,7 @@ Definition chk_out (expected impl : out) : option clause :=
   | OutE _, OutE _ => Some ClKeptDropped
   | OutU a, OutU b => if Bool.eqb a b then None else Some ClUpsertResult
   | OutD, OutD => None
+  | OutG a, OutG b => if Bool.eqb a b then None else Some ClError
   | _, _ => Some ClShape
   end.
 (* first violated clause with the index of the operation *)
@@ -86,6 +87,21 @@ Definition chk_C16 (c : cfg) (sel : list (bytes * path)) (wc : wcond)
 Definition chk_C16_sql (q : qtext) (sel : list (bytes * path)) (wc : wcond)
            (regs : list reg_call) (ops : list op) (impl : list out) : option (nat * clause) :=
   chk_outs O (api_run sel wc ops (spec_run_sql q regs ops)) impl.
+
+(* histories in which tables are registered again (RegisterTable / RegisterTableSource under a name that
+   is already registered, possibly with other rows / other key fields) between rows: every row processed
+   after the registration returned is enriched from the NEW table, every UpsertTable / Delete after it
+   goes to the new table; writes through the handle of a replaced source change nothing *)
+Definition api_hout (sel : list (bytes * path)) (wc : wcond) (h : hcall) (x : out) : out :=
+  match h with
+  | HCOp o => api_out sel wc o x
+  | _ => x
+  end.
+Definition api_hrun (sel : list (bytes * path)) (wc : wcond) (hs : list hcall) (xs : list out) : list out :=
+  map (fun hx => api_hout sel wc (fst hx) (snd hx)) (combine hs xs).
+Definition chk_C16_hsql (q : qtext) (sel : list (bytes * path)) (wc : wcond)
+           (regs : list reg_call) (hs : list hcall) (impl : list out) : option (nat * clause) :=
+  chk_outs O (api_hrun sel wc hs (spec_hrun_sql q regs hs)) impl.
 
 (* encodeKey(a) == encodeKey(b) on the real code must be the property's key equality *)
 Definition chk_key_equality (a b : list kv) (impl_equal : bool) : option clause :=
